@@ -57,6 +57,11 @@ pub struct QCase {
     /// delegate to it; error and panic outcomes are raised before it is reached)
     #[serde(default)]
     pub wrapped_buffered: Option<usize>,
+    /// with a wrapped buffered sink: send attempts of its socket that find the socket buffer full
+    /// and block (blocking mode) until the extra gate opens — the worker is then stalled *inside*
+    /// the buffered sink, holding its lock
+    #[serde(default)]
+    pub sock_full: Vec<usize>,
 }
 
 const SLOTS: usize = 3;
@@ -392,10 +397,17 @@ fn snapshot(sh: &Shared, observer: Option<&QueuingMetricSink>, label: &'static s
 }
 
 fn sim_main(case: QCase) -> Obs {
+    let mut gates: Vec<Gate> = (0..case.n_gates).map(|_| Gate::new()).collect();
     let (inner, ctl) = match case.wrapped_buffered {
         Some(cap) => {
             let socket = cadence_dsim::net::UdpSocket::bind("0.0.0.0:0").unwrap();
             let ctl = socket.ctl();
+            if !case.sock_full.is_empty() {
+                let g = Gate::new();
+                let n = case.sock_full.iter().copied().max().unwrap_or(0) + 1;
+                ctl.set_plan((0..n).map(|i| if case.sock_full.contains(&i) { cadence_dsim::net::SendOutcome::Full(g.clone()) } else { cadence_dsim::net::SendOutcome::Ok }).collect());
+                gates.push(g);
+            }
             (Some(cadence::BufferedUdpMetricSink::with_capacity("127.0.0.1:8125", socket, cap).unwrap()), Some(ctl))
         }
         None => (None, None),
@@ -405,7 +417,7 @@ fn sim_main(case: QCase) -> Obs {
         log: Mutex::new(Vec::new()),
         prod: Mutex::new(Vec::new()),
         samples: Mutex::new(Vec::new()),
-        gates: (0..case.n_gates).map(|_| Gate::new()).collect(),
+        gates,
         plan: case.plan.clone(),
         invocations: AtomicUsize::new(0),
         sink_drops: AtomicUsize::new(0),
@@ -433,6 +445,31 @@ fn sim_main(case: QCase) -> Obs {
         }
     };
     let observer = if case.observer { Some(q.clone()) } else { None };
+    if !sh.gates.is_empty() {
+        // gatekeeper: if the main task itself gets stuck inside an API call while everything else
+        // is idle (e.g. a flush waiting for a lock the stalled worker holds), nobody else would ever
+        // open the gates; "faults stop" then
+        let sh2 = sh.clone();
+        sthread::spawn_named("gatekeeper", move || loop {
+            kernel::set_label("gatekeeper: idle");
+            kernel::wait_idle();
+            if sh2.gates.iter().all(|g| g.is_open()) {
+                break;
+            }
+            let t = kernel::task_table();
+            match &t[0].state {
+                TState::Blocked { res, .. } if *res != kernel::IDLE_RES => {
+                    for g in &sh2.gates {
+                        g.open();
+                    }
+                    kernel::event(|| "gatekeeper opened all gates (main task stuck in an API call)".to_string(), &[0x75]);
+                    break;
+                }
+                TState::Finished => break,
+                _ => {}
+            }
+        });
+    }
     for (i, prog) in case.producers.iter().enumerate() {
         let h = q.clone();
         let sh2 = sh.clone();
@@ -620,6 +657,7 @@ impl Engine for E3 {
             }
         };
         let w_flush = if wrapped_buffered.is_some() { 14 } else { 2 };
+        let sock_full: Vec<usize> = if wrapped_buffered.is_some() && cfg.chance(1, 2) { (0..1 + cfg.usize_below(2)).map(|_| cfg.usize_below(5)).collect() } else { Vec::new() };
         let n_main = prog.usize_below(9);
         let main_ops = gen_prog(&mut prog, n_main, &mut next_id, n_gates, w_clone, w_drop, w_flush);
         let mut producers = Vec::new();
@@ -674,7 +712,7 @@ impl Engine for E3 {
             _ => [35, 20, 20, 15, 10],
         };
         let sched = SchedSpec::generate(&mut sch, &weights);
-        QCase { sched, cap, via_builder, handler, plan, n_gates, main_ops, producers, sampler, observer, final_drop, wrapped_buffered }
+        QCase { sched, cap, via_builder, handler, plan, n_gates, main_ops, producers, sampler, observer, final_drop, wrapped_buffered, sock_full }
     }
 
     fn pin_schedule(case: &QCase, o: &Outcome) -> QCase {
@@ -772,6 +810,12 @@ impl Engine for E3 {
         if case.wrapped_buffered.is_some() {
             let mut c = case.clone();
             c.wrapped_buffered = None;
+            c.sock_full.clear();
+            v.push(c);
+        }
+        if !case.sock_full.is_empty() {
+            let mut c = case.clone();
+            c.sock_full.clear();
             v.push(c);
         }
         for s in case.sched.shrink() {
@@ -1007,7 +1051,7 @@ fn judge(case: &QCase, main: &Option<Obs>, end_tasks: &[TaskInfo], out: &mut Out
 
     // ---- blocked callers at the end ----
     for t in &obs.final_tasks {
-        if !t.anon && t.id != 0 {
+        if !t.anon && t.id != 0 && t.name != "gatekeeper" {
             if let TState::Blocked { .. } = t.state {
                 let props: &[&str] = if t.label.starts_with("emit") {
                     &["C10"]
@@ -1124,6 +1168,9 @@ fn judge(case: &QCase, main: &Option<Obs>, end_tasks: &[TaskInfo], out: &mut Out
             }
             if let Some((_, SinkOutcome::Stall(_))) = open {
                 out.probe("drop_while_worker_stalled");
+            }
+            if open.is_some() && !case.sock_full.is_empty() {
+                out.probe("drop_while_worker_inside_buffered_sink");
             }
             if obs.log.iter().any(|e| matches!(e, Ev::SinkExit { outcome: SinkOutcome::Panic, step, .. } if *step > ld.step_at)) {
                 out.probe("panic_while_stop_pending");
@@ -1302,6 +1349,12 @@ fn judge(case: &QCase, main: &Option<Obs>, end_tasks: &[TaskInfo], out: &mut Out
                         out.probe("handler_invoked");
                         match pending_err {
                             Some((k, t)) => {
+                                // "before the next metric is processed": no other invocation may have
+                                // started between the start of the failing one and this handler call
+                                let start = log.iter().position(|e| matches!(e, Ev::SinkEnter { k: kk, .. } if *kk == k)).unwrap_or(i);
+                                if let Some(Ev::SinkEnter { k: other, .. }) = log[start + 1..i].iter().find(|e| matches!(e, Ev::SinkEnter { .. })) {
+                                    out.violate(&["C16"], "queue.handler-after-next-metric", format!("metric #{other} was handed to the wrapped sink before the failure of #{k} reached the error handler"));
+                                }
                                 let want_kind = match case.plan.get(k) {
                                     Some(SinkOutcome::Err(kd)) => kd.clone(),
                                     _ => String::new(),
